@@ -1277,6 +1277,38 @@ fn run_timeout_partial(case_seed: u64, r: &mut Report) {
     }
     // past A's expiry (1 s), well inside B's
     std::thread::sleep(Duration::from_millis(1_150).saturating_sub(a_locked.elapsed()));
+    if case_seed % 4 >= 2 {
+        // the expired-lock sweep runs instead of a take-over; then t1 ends: "the locks disappear
+        // when the first one ends" - a new writer gets row B at once, not after B's timeout
+        let swept = e.tx_manager().cleanup_expired_locks();
+        r.count("timeout_partial_sweep_removed", swept as u64);
+        let ended = if case_seed & 1 == 0 { e.commit(t1).is_ok() } else { e.rollback(t1).is_ok() };
+        let res = e.tx_update(t3, T, row(2), ups(3));
+        let b_age = b_locked.elapsed();
+        if b_age < Duration::from_millis(850) {
+            match res {
+                Ok(1) => r.count("timeout_partial_locks_gone_after_sweep_and_end", 1),
+                other => {
+                    r.violation(
+                        "locks:lock-of-finished-tx-still-held-after-expired-lock-sweep",
+                        format!(
+                            "lock timeout 1 s; t1 wrote row A, {} ms later row B; the sweep removed {} expired lock(s); t1 ended (ok={}); {} ms after t1 wrote B a new transaction's write on B got {:?}",
+                            b_locked.duration_since(a_locked).as_millis(), swept, ended, b_age.as_millis(), other
+                        ),
+                        replay,
+                    );
+                    return;
+                }
+            }
+        } else {
+            r.inconclusive("timeout-partial: machine too slow for the window (don't care)");
+        }
+        let _ = e.rollback(t3);
+        let _ = e.rollback(t2);
+        r.eval(hash_combine(case_seed, 0x73), true);
+        r.count("programs:timeout-partial", 1);
+        return;
+    }
     let took = e.tx_update(t2, T, row(1), ups(2));
     if !matches!(took, Ok(1)) {
         r.count("timeout_partial_takeover_refused", 1);
@@ -1306,6 +1338,68 @@ fn run_timeout_partial(case_seed: u64, r: &mut Report) {
     let _ = e.rollback(t1);
     r.eval(hash_combine(case_seed, 0x72), true);
     r.count("programs:timeout-partial", 1);
+}
+
+/// A transaction that idles past the lock timeout (but not the transaction timeout) and then
+/// rolls back: nobody took its rows over, so the rollback must still undo everything.
+fn run_rollback_after_expiry(case_seed: u64, r: &mut Report) {
+    let replay = json!({"part": "rollback-after-expiry", "case_seed": case_seed});
+    let e = RelationalEngine::with_config(cfg(1));
+    if e.create_table(T, schema()).is_err() {
+        r.inconclusive("rollback-after-expiry: setup failed");
+        return;
+    }
+    if case_seed & 1 == 0 {
+        let _ = e.create_index(T, "k");
+        let _ = e.create_btree_index(T, "v");
+    }
+    for k in 1..=3i64 {
+        if e.insert(T, to_map(&[Value::Int(k), Value::Int(k * 10), Value::Null, Value::Float(0.0)])).is_err() {
+            r.inconclusive("rollback-after-expiry: setup failed");
+            return;
+        }
+    }
+    let snapshot = |e: &RelationalEngine| -> Vec<String> {
+        let mut out = Vec::new();
+        for c in [Condition::True, Condition::Ge("v".into(), Value::Int(0)), Condition::Eq("k".into(), Value::Int(2)), Condition::Eq("k".into(), Value::Int(9))] {
+            let mut rows: Vec<String> = e.select(T, c.clone()).map(|rs| rs.iter().map(|x| format!("{}:{:?}", x.id, x.values)).collect()).unwrap_or_else(|er| vec![format!("error {:?}", er)]);
+            rows.sort();
+            out.push(format!("{:?} -> {:?}", c, rows));
+        }
+        out
+    };
+    let before = snapshot(&e);
+    let ups = |v: i64| -> HashMap<String, Value> { [("v".to_string(), Value::Int(v))].into_iter().collect() };
+    let t = e.begin_transaction();
+    let w1 = e.tx_update(t, T, Condition::Eq("k".into(), Value::Int(1)), ups(111));
+    let w2 = e.tx_insert(t, T, to_map(&[Value::Int(9), Value::Int(90), Value::Null, Value::Float(0.0)]));
+    let w3 = e.tx_delete(t, T, Condition::Eq("k".into(), Value::Int(2)));
+    if w1.is_err() || w2.is_err() || w3.is_err() {
+        r.inconclusive("rollback-after-expiry: writes failed");
+        return;
+    }
+    std::thread::sleep(Duration::from_millis(1_250));
+    if case_seed % 3 == 0 {
+        let _ = e.tx_manager().cleanup_expired_locks();
+    }
+    let rb = e.rollback(t);
+    let after = snapshot(&e);
+    if rb.is_ok() && after != before {
+        let d: Vec<String> = before.iter().zip(after.iter()).filter(|(a, b)| a != b).map(|(a, b)| format!("before {} / after {}", a, b)).collect();
+        r.violation(
+            "rollback:ok-but-changes-survive:after-own-locks-expired",
+            format!("lock timeout 1 s; update+insert+delete, 1.25 s idle, rollback() = Ok, but {}", d.join("; ")),
+            replay,
+        );
+        return;
+    }
+    if rb.is_err() {
+        // a refused rollback is judged only by what the statement says: it must not report success
+        r.count("rollback_after_expiry_refused", 1);
+    } else {
+        r.count("rollback_after_expiry_restored", 1);
+    }
+    r.eval(hash_combine(case_seed, 0x74), true);
 }
 
 /// minimal witness of the known defect (`--probe 1`)
@@ -1363,6 +1457,7 @@ fn main() {
         "threads" => run_threads(seed, r),
         "timeout" => run_timeout(seed, r),
         "timeout-partial" => run_timeout_partial(seed, r),
+        "rollback-after-expiry" => run_rollback_after_expiry(seed, r),
         other => r.inconclusive(&format!("unknown part {}", other)),
     };
 
@@ -1402,7 +1497,8 @@ fn main() {
                             let mut rr = Report::new();
                             run_timeout(case_seed(seed ^ 0x77, i as u64), &mut rr);
                             for j in 0..4u64 {
-                                run_timeout_partial(case_seed(seed ^ 0x78, i as u64 * 4 + j), &mut rr);
+                                run_timeout_partial(case_seed(seed ^ 0x78, i as u64 * 4 + j) & !3 | j, &mut rr);
+                                run_rollback_after_expiry(case_seed(seed ^ 0x79, i as u64 * 4 + j) & !7 | (j + 4 * (i as u64 & 1)), &mut rr);
                             }
                             rr
                         })).collect();
@@ -1456,12 +1552,12 @@ fn main() {
             floors.extend([("programs:threads", 20u64), ("threads_lock_conflicts", 50), ("threads_writes", 2_000)]);
         }
         if want("timeout") {
-            floors.extend([("timeout_release_seen", 1u64), ("timeout_partial_other_lock_survives_takeover", 2)]);
+            floors.extend([("timeout_release_seen", 1u64), ("timeout_partial_other_lock_survives_takeover", 2), ("timeout_partial_locks_gone_after_sweep_and_end", 2), ("rollback_after_expiry_restored", 4)]);
         }
     }
     let meta = Meta {
         property: "C09",
-        rule: "one evaluation = one executed program (seq: one transaction at a time; interleave: 2-4 transactions in a random single-threaded interleaving; threads: 2-8 real threads; timeout: lock expiry, take-over of an expired lock while the old holder ends, and take-over of ONE expired lock of a transaction whose other lock is still fresh) that passed every per-step check; distinct by hash of the executed statement trace; non-trivial when it contains >=3 transactional statements and at least one finished transaction (threads: at least one lock conflict occurred)",
+        rule: "one evaluation = one executed program (seq: one transaction at a time; interleave: 2-4 transactions in a random single-threaded interleaving; threads: 2-8 real threads; timeout: lock expiry, take-over of an expired lock while the old holder ends, take-over of ONE expired lock of a transaction whose other lock is still fresh, the expired-lock sweep followed by the end of the transaction, and rollback after the transaction's own locks expired) that passed every per-step check; distinct by hash of the executed statement trace; non-trivial when it contains >=3 transactional statements and at least one finished transaction (threads: at least one lock conflict occurred)",
         assumptions: vec![
             "per-step state checks only judge rows no active transaction has touched, so they hold under any isolation level; whole-table, index-battery and lock-table checks run whenever no transaction is active".into(),
             "a write whose condition matches a row *updated* by another active transaction must fail with LockConflict; for rows *inserted* or *deleted* by another active transaction either LockConflict or 'row not visible' is accepted, but actually modifying such a row is a violation".into(),
